@@ -183,3 +183,71 @@ package argmapper
 //@ func Converter
 //@   ensures result != nil && fncode(result) == litcode("argmapper.Converter$1") && captured(result, "argmapper.Converter$1", "fs") == fs
 //@   assigns nothing
+
+// ---------------------------------------------------------------- struct.go, value_set.go (C14, C15)
+//@ uf baseType(t reflect.Type) reflect.Type
+//@ axiom base-type: forall(t, reflect.Type, imp(t != nil, ite(kindof(t) == 22, baseType(t) == baseType(elemof(t)), baseType(t) == t)))
+//@ ghost isMarker(t reflect.Type, i int) bool = fieldAnon(t, i) && fieldType(t, i) == structMarkerType
+//@ uf hasMarker(t reflect.Type) bool
+//@ axiom has-marker: forall(t, reflect.Type, hasMarker(t) == exists(i, int, 0 <= i && i < numField(t) && isMarker(t, i)))
+// specification of a marker struct type (from the statement of C14)
+//@ ghost isMarkerStruct(t reflect.Type) bool = kindof(baseType(t)) == 25 && hasMarker(baseType(t))
+
+//@ func isStructField
+//@   pure
+//@   ensures result == (f.Anonymous && f.Type == structMarkerType)
+
+//@ func isStruct
+//@   requires t != nil
+//@   ensures  result == isMarkerStruct(t)
+//@   ensures  kept(reflect.StructField)
+//@   assigns  reflect.StructField
+//@   loop 1 invariant t != nil && baseType(t) == baseType(old(t))
+//@   loop 1 decreases ptrDepth(t)
+//@   loop 2 invariant kept(reflect.StructField) && 0 <= i && i <= numField(t) && t == baseType(old(t)) && kindof(t) == 25
+//@   loop 2 invariant forall(j, int, imp(0 <= j && j < i, !isMarker(t, j)))
+//@   loop 2 decreases numField(t) - i
+
+// ---- tag grammar: argmapper:"name,opt,opt=value"
+//@ ghost optKey(v string) string = ite(firstIndex(v, "=") == -1, v, strslice(v, 0, firstIndex(v, "=")))
+//@ ghost optVal(v string) string = ite(firstIndex(v, "=") == -1, "", strslice(v, firstIndex(v, "=") + 1, -1))
+// lastOpt(tag, key): the last option position (>= 1) carrying key, 0 if none
+//@ uf lastOpt(tag string, key string) int
+//@ axiom last-opt: forall(t, string, k, string, 0 <= lastOpt(t, k) && lastOpt(t, k) < splitLen(t, ",") && imp(lastOpt(t, k) >= 1, optKey(splitAt(t, ",", lastOpt(t, k))) == k) && forall(j, int, imp(1 <= j && j < splitLen(t, ",") && optKey(splitAt(t, ",", j)) == k, j <= lastOpt(t, k))))
+//@ ghost ftag(t reflect.Type, i int) string = tagGet(fieldTag(t, i), "argmapper")
+//@ ghost specTypeOnly(t reflect.Type, i int) bool = ftag(t, i) != "" && lastOpt(ftag(t, i), "typeOnly") >= 1
+//@ ghost specSub(t reflect.Type, i int) string = ite(ftag(t, i) != "" && lastOpt(ftag(t, i), "subtype") >= 1, optVal(splitAt(ftag(t, i), ",", lastOpt(ftag(t, i), "subtype"))), "")
+//@ ghost specName(t reflect.Type, i int) string = ite(specTypeOnly(t, i), "", lower(ite(ftag(t, i) != "" && splitAt(ftag(t, i), ",", 0) != "", splitAt(ftag(t, i), ",", 0), fieldName(t, i))))
+//@ ghost eligible(t reflect.Type, i int) bool = 0 <= i && i < numField(t) && fieldPkgPath(t, i) == "" && !isMarker(t, i)
+
+//@ func (*Value).Kind
+//@   pure
+//@   ensures result == ite(v.Name != "", 1, 2)
+
+// vpos: ghost position of struct field i in the values list
+//@ ghostvar vpos fmap[int,int]
+// vsOK: a value set mirrors struct type T (pointer-stripped) exactly
+//@ ghost vsOK(vs *ValueSet, T reflect.Type) bool =
+//@     vs != nil && vs.structType == T && kindof(T) == 25 && vs.namedValues != nil && vs.typedValues != nil && soff(vs.values) == 0
+//@     && forall(j, int, imp(0 <= j && j < len(vs.values), vs.values[j] != nil && eligible(T, vs.values[j].index) && vs.values[j].Type == fieldType(T, vs.values[j].index) && vs.values[j].Name == specName(T, vs.values[j].index) && vs.values[j].Subtype == specSub(T, vs.values[j].index) && !valid(vs.values[j].Value) && vpos[vs.values[j].index] == j))
+//@     && forall(j, int, k, int, imp(0 <= j && j < k && k < len(vs.values), vs.values[j].index < vs.values[k].index && vs.values[j] != vs.values[k]))
+//@     && forall(i, int, imp(eligible(T, i), 0 <= vpos[i] && vpos[i] < len(vs.values) && vs.values[vpos[i]].index == i))
+//@     && forall(j, int, imp(0 <= j && j < len(vs.values) && vs.values[j].Name != "", has(vs.namedValues, vs.values[j].Name) && imp(forall(k, int, imp(j < k && k < len(vs.values), vs.values[k].Name != vs.values[j].Name)), vs.namedValues[vs.values[j].Name] == vs.values[j])))
+//@     && forall(j, int, imp(0 <= j && j < len(vs.values) && vs.values[j].Name == "", has(vs.typedValues, vs.values[j].Type) && imp(forall(k, int, imp(j < k && k < len(vs.values) && vs.values[k].Name == "", vs.values[k].Type != vs.values[j].Type)), vs.typedValues[vs.values[j].Type] == vs.values[j])))
+//@     && forall(n, string, imp(has(vs.namedValues, n), vs.namedValues[n] != nil && vs.namedValues[n].Name == n && n != "" && 0 <= vpos[vs.namedValues[n].index] && vpos[vs.namedValues[n].index] < len(vs.values) && vs.values[vpos[vs.namedValues[n].index]] == vs.namedValues[n]))
+//@     && forall(t, reflect.Type, imp(has(vs.typedValues, t), vs.typedValues[t] != nil && vs.typedValues[t].Type == t && vs.typedValues[t].Name == "" && 0 <= vpos[vs.typedValues[t].index] && vpos[vs.typedValues[t].index] < len(vs.values) && vs.values[vpos[vs.typedValues[t].index]] == vs.typedValues[t]))
+
+//@ ghost vsKept() bool = kept(ValueSet, Value, valueInternal, []*Value, map[string]*Value, map[reflect.Type]*Value, map[string]string, []string, reflect.StructField)
+
+//@ func newValueSetFromStruct
+//@   requires typ != nil
+//@   ensures  [rejects-double-pointer] imp(ptrDepth(typ) > 1, err != nil)
+//@   ensures  [rejects-non-struct] imp(kindof(baseType(typ)) != 25, err != nil)
+//@   ensures  [accepts] imp(ptrDepth(typ) <= 1 && kindof(baseType(typ)) == 25, err == nil)
+//@   ensures  [mirrors-struct] imp(err == nil, vsOK(result, baseType(typ)) && fresh(result) && result.structPointers == ptrDepth(typ) && !result.isLifted)
+//@   ensures  [error-means-nil] imp(err != nil, result == nil)
+//@   ensures  [frame] vsKept()
+//@   assigns  ValueSet, Value, valueInternal, []*Value, map[string]*Value, map[reflect.Type]*Value, map[string]string, []string, reflect.StructField, vpos
+//@   after "result.values = append(result.values, &value)" set vpos = update(vpos, i, len(result.values)-1)
+//@   loop 1 invariant typ != nil && baseType(typ) == baseType(old(typ)) && 0 <= ptrCount && ptrCount <= 255 && ptrDepth(old(typ)) == ptrDepth(typ) + ptrCount
+//@   loop 1 decreases ptrDepth(typ)
